@@ -157,7 +157,10 @@ func (r *rwConn) write(b []byte) error {
 
 // barrier: a ping answered by the connection's reader goroutine through the same FIFO send
 // channel: every frame enqueued before the ping was read has been received when it returns.
-// Only usable while the connection is active (a ping on a closing connection is a protocol error).
+// Used only while the connection is active: the scripted cases send no pings to a closing
+// connection (a draining connection answers them since the repair of handlePingReq, a closed
+// one does not; pings during the drain are C07's subject and have no label in Model/RespWire.v),
+// they wait for the wire to be quiet instead (settle).
 func (r *rwConn) barrier() bool {
 	r.wmu.Lock()
 	r.nextPing++
@@ -435,6 +438,7 @@ type mcall struct {
 	shortTTL                       bool
 	rets                           []int64
 	requests                       int
+	sysErrNil                      bool // a SendSystemError of this call returned nil (its frame was queued)
 }
 
 type mcase struct {
@@ -452,6 +456,7 @@ type mcase struct {
 	cut          bool
 	infeasible   string
 	hist         []string
+	verdicts     []string // statement-level findings made while the script runs
 }
 
 func (m *mcase) lab(op int, a, b int64) {
@@ -660,12 +665,29 @@ func (m *mcase) stepCall(c *mcall) {
 			m.markShutdown(c)
 		}
 	case opSysErr:
+		// C10_syserr_step (from the statement: a handler's error is what the caller gets instead
+		// of the response): no connection failure so far, the call was dispatched, its exchange is
+		// still registered and its response has not failed -- then SendSystemError must queue the
+		// error frame and return nil, whether the connection is active or draining after Close,
+		// also when this call is the last one being drained (the send buffer is never full here)
+		mustSend := !m.cut && !m.protoStopped && !c.errSeen && !c.done && !c.expired && !c.shortTTL &&
+			m.conn != nil && tchannel.VerifInboundHas(m.conn, c.id)
+		stBefore, _, inbBefore := m.info()
 		r, ok := m.do(c, cmd)
 		if !ok {
 			return
 		}
 		c.rets = append(c.rets, b2i(r.err))
 		m.lab(19, id, 0)
+		if mustSend {
+			m.hist = append(m.hist, fmt.Sprintf("syserr-in-flight:conn-state=%d last-exchange=%v", stBefore, inbBefore == 1))
+			if r.err {
+				m.verdicts = append(m.verdicts, fmt.Sprintf("id %d: SendSystemError of a dispatched call whose exchange was still registered (connection state %d, %d inbound exchanges, no connection failure) was refused: the caller does not get the handler's error", c.id, stBefore, inbBefore))
+			}
+		}
+		if !r.err {
+			c.sysErrNil = true
+		}
 		if c.done && !c.errSeen {
 			c.misuse = true
 		}
@@ -879,10 +901,25 @@ func runModelCase(rng *rand.Rand, servers [2]*tchannel.Channel, caseNo int) (in,
 	if rng.Intn(3) == 0 {
 		cancelAt = 3 + rng.Intn(12)
 	}
+	var forcePlan []hcmd
+	if caseNo%8 == 5 {
+		// forced in every 8th case: the system error of the LAST call being drained.  One call,
+		// Close while its handler is running (after 0..n response fragments), then
+		// SendSystemError: removing the exchange closes the connection, the error frame must
+		// have been queued before (inbound.go SendSystemError as repaired)
+		ncalls, event, cancelAt = 1, 1, -1
+		full := completePlan(rng, pick(rng, 0, 0, 1, 2), pick(rng, 0, 1, 2))
+		cutAt := pick(rng, 1, 1, 4+rng.Intn(len(full)-4))
+		forcePlan = append(append([]hcmd{}, full[:cutAt]...), hcmd{op: opSysErr})
+		eventAt = 1 + rng.Intn(len(forcePlan)-1)
+	}
 	started := 0
 	nextID := baseID
 	newCall := func() {
 		plan, short, class := genPlan(rng)
+		if forcePlan != nil {
+			plan, short, class = forcePlan, false, "forced:syserr-of-last-drained-call"
+		}
 		classes = append(classes, class)
 		ttl := uint32(60000)
 		if short {
@@ -897,6 +934,9 @@ func runModelCase(rng *rand.Rand, servers [2]*tchannel.Channel, caseNo int) (in,
 	raceAt := -1
 	if rng.Intn(8) == 0 {
 		raceAt = 1 + rng.Intn(10)
+	}
+	if forcePlan != nil {
+		raceAt = -1
 	}
 	if caseNo%8 == 3 {
 		// the close-vs-admission window is forced in every 8th case, early enough that the
@@ -1084,9 +1124,22 @@ func runModelCase(rng *rand.Rand, servers [2]*tchannel.Channel, caseNo int) (in,
 		if m.reqCount[id] == 1 && (c == nil || !c.misuse) {
 			if v := wireVerdict(id, fs, false); v != "" {
 				verdicts = append(verdicts, v)
+			} else if c != nil && c.sysErrNil && !m.cut {
+				// C10_syserr_delivered: the handler's SendSystemError returned nil and the peer
+				// did not cut the connection: exactly one error frame, and it ends the id's frames
+				nerr := 0
+				for _, f := range fs {
+					if f.typ == 0xff {
+						nerr++
+					}
+				}
+				if nerr != 1 || fs[len(fs)-1].typ != 0xff {
+					verdicts = append(verdicts, fmt.Sprintf("id %d: SendSystemError returned nil but the caller received %v: not exactly one error frame at the end", id, fs))
+				}
 			}
 		}
 	}
+	verdicts = append(verdicts, m.verdicts...)
 	for _, id := range rw.ids() {
 		if m.reqCount[id] == 0 && id != 0xffffffff {
 			verdicts = append(verdicts, fmt.Sprintf("frames %v for id %d which was never requested", rw.snapshot(id), id))
